@@ -110,7 +110,8 @@ def array_split_sizes(n, k):
 def select(r, idx):
     if not r.indexable or r.outs is None:
         raise RefUndefined('not indexable')
-    keys = [r.keys[i] for i in idx] if r.keys is not None else None
+    # a slice pairs examples with keys through the input's keys() table, so it needs that table
+    keys = [r.keys[i] for i in idx] if (r.keys is not None and r.keys_api) else None
     return Ref(outs=[r.outs[i] for i in idx], keys=keys,
                keys_api=r.keys_api and keys is not None and len(set(keys)) == len(keys),
                indexable=True, haslen=True, ordered=r.ordered)
